@@ -126,7 +126,11 @@ func c04Templates(g *Gen) []c04Case {
 	csv := []jtable{t0, t1}
 	n := strconv.Itoa(1 + g.Intn(3))
 	lit := strconv.Itoa(g.Intn(3))
+	tie := jtable{file: "tie.csv", cols: []qcol{{name: "b", kind: 'i'}, {name: "a", kind: 'i'}, {name: "k", kind: 'i'}},
+		rows: [][]octosql.Value{{octosql.NewInt(1), octosql.NewInt(2), octosql.NewInt(0)}, {octosql.NewInt(2), octosql.NewInt(1), octosql.NewInt(0)}}}
 	cs := []c04Case{
+		// the witness of Octo.C04.C04_refuted: the two rows tie on k, the unused column b decides which one LIMIT 1 keeps
+		{tables: []jtable{tie}, sql: "SELECT q.a FROM (SELECT t.b AS b, t.a AS a, t.k AS k FROM tie.csv t ORDER BY k LIMIT 1) q"},
 		// the field an Unnest expands is not otherwise used (fixed defect: the optimizer removed it)
 		{tables: []jtable{j0}, sql: "SELECT q.x FROM (SELECT a.k AS x, unnest(a.l) AS u FROM j0.json a) q"},
 		{tables: []jtable{j0}, sql: "SELECT q.u, q.y FROM (SELECT a.k AS x, unnest(a.l) AS u, a.a AS y FROM j0.json a) q WHERE q.u > 1.5"},
@@ -203,9 +207,14 @@ func c04Line(g *Gen, cs c04Case, behavioural bool) string {
 }
 
 func genC04(g *Gen, tier string, w *bufio.Writer) {
-	nplan, nq, rounds := 1500, 400, 2
+	nplan, nq, nraw, rounds := 1000, 350, 2000, 2
 	if tier == "thorough" {
-		nplan, nq, rounds = 30000, 6000, 30
+		nplan, nq, nraw, rounds = 8000, 2000, 40000, 20
+	}
+	for i := 0; i < nraw; i++ {
+		if l := rawPlanLine(g); l != "" {
+			fmt.Fprintln(w, l)
+		}
 	}
 	for r := 0; r < rounds; r++ {
 		for _, cs := range c04Templates(g) {
@@ -291,6 +300,14 @@ func driveC04(toks []string) string {
 		a := canonOutput(runOctosql(dir, nil, string(b), "-o", mode, "--optimize=false"), mode, kinds)
 		o := canonOutput(runOctosql(dir, nil, string(b), "-o", mode), mode, kinds)
 		return "A " + sortCanonRows(a) + " B " + sortCanonRows(o)
+	case "raw":
+		p := &planParser{toks: toks[1:]}
+		n := p.node()
+		out, ok := c04Dump(optimizer.Optimize(n), c04Policy)
+		if !ok {
+			return "undumpable"
+		}
+		return out
 	case "optqerr":
 		// debugging aid: the stderr of both runs
 		mode := toks[1]
